@@ -71,20 +71,20 @@ Qed.
 
 (* ------------------------------------------------------------------ (a) never clobbers *)
 Theorem never_clobbers_run c e um cmd w :
-  plain e -> cfg_ok c = true ->
+  plain e -> cfg_ok c = true -> edit_ok c cmd = true ->
   Rel (prot_a c) (w_fs w) (w_fs (s_w (snd (run e c um cmd w)))).
 Proof.
-  intros He Hc. destruct (cfg_ok_facts c Hc) as (H1 & H2 & H3 & H4 & H5 & H6 & H7 & H8 & H9).
-  unfold run. exact (stepsR_run_command c H1 H2 H3 H4 H5 H6 H7 H8 H9 e He um cmd (MkSt w 0 [])).
+  intros He Hc Hed. destruct (cfg_ok_facts c Hc) as (H1 & H2 & H3 & H4 & H5 & H6 & H7 & H8 & H9).
+  unfold run. exact (stepsR_run_command c H1 H2 H3 H4 H5 H6 H7 H8 H9 e He um cmd Hed (MkSt w 0 [])).
 Qed.
 
 Theorem C16_never_clobbers_proof cfg w e cmd um :
-  plain_env e = true -> cfg_ok cfg = true -> world_ok cfg w = true ->
+  plain_env e = true -> cfg_ok cfg = true -> world_ok cfg w = true -> edit_ok cfg cmd = true ->
   clobber_spec cfg (wo_fs w) (wo_fs (v_after (view_of_model cfg w e cmd um))) = true.
 Proof.
-  intros He Hc Hw. apply plain_env_plain in He. unfold world_ok in Hw. apply andb_true_iff in Hw as [Hnd Htr].
+  intros He Hc Hw Hed. apply plain_env_plain in He. unfold world_ok in Hw. apply andb_true_iff in Hw as [Hnd Htr].
   rewrite view_after. cbn [wo_fs]. apply Rel_clobber_spec; [exact Hnd|exact Htr|].
-  exact (never_clobbers_run cfg e um cmd (world_of w) He Hc).
+  exact (never_clobbers_run cfg e um cmd (world_of w) He Hc Hed).
 Qed.
 
 (* ------------------------------------------------------------------ (b) rename / remove *)
@@ -204,11 +204,12 @@ Definition mount_ok (c : cfgT) (w : wobs) (cmd : command) : bool :=
 
 Theorem C16_model_partial_proof cfg w e cmd um :
   cfg_ok cfg = true -> cfg_ok_mount cfg = true -> world_ok cfg w = true -> mount_ok cfg w cmd = true ->
+  edit_ok cfg cmd = true ->
   C16.step_spec cfg w (view_of_model cfg w e cmd um) = true.
 Proof.
-  intros Hc Hcm Hw Hmo. rewrite step_spec_split, view_env.
+  intros Hc Hcm Hw Hmo Hed. rewrite step_spec_split, view_env.
   destruct (plain_env e) eqn:He; [|reflexivity]. cbn [negb].
-  rewrite (C16_never_clobbers_proof cfg w e cmd um He Hc Hw). cbn [andb].
+  rewrite (C16_never_clobbers_proof cfg w e cmd um He Hc Hw Hed). cbn [andb].
   destruct (v_res (view_of_model cfg w e cmd um)) eqn:Hres.
   2-5: unfold cmd_spec; rewrite Hres, view_cmd; destruct cmd; reflexivity.
   destruct (rr_of cmd) as [n|] eqn:Hrr.
